@@ -320,6 +320,12 @@ func tileMain(args []string) error {
 				firstErr = err
 				return
 			}
+			hc := ts.Client()
+			if front == "slowonce" {
+				c2 := *hc
+				c2.Timeout = 200 * time.Millisecond // (what --http_timeout is for the binary: shorter than the front end's slow moment)
+				hc = &c2
+			}
 			failures := 0
 			for p := range ch {
 				if failures >= 5 {
@@ -340,7 +346,7 @@ func tileMain(args []string) error {
 				}
 				sl.Publish(0, p.to)
 				rw := &recWitness{inner: witnessAdapterOf(wit)}
-				ferr := feed(ctx, lc, rw, ts.Client(), 0)
+				ferr := feed(ctx, lc, rw, hc, 0)
 				cancel()
 				r2 := l.Trees[0].Root(p.to)
 				ev := tileEvent{E: "tile.proof", Reqs: []string{}, Run: *kind + "/" + tag, From: p.from, To: p.to}
